@@ -155,6 +155,14 @@ func (Engine) Run(c *simkit.Choices, x *simkit.Ctx) *simkit.Violation {
 				data[j] = byte(c.N(256))
 			}
 			st.Fault("random-bytes")
+		case 2: // nesting bomb: beyond the parsers' pre-allocated stacks
+			if c.N(3) == 0 {
+				data = common.NestBomb(c, f)
+				faults = []common.Fault{{Kind: "nest-bomb", Arg: len(data)}}
+				st.Fault("nest-bomb")
+			} else {
+				data, faults = common.Corrupt(c, doc, 1+c.N(4), st)
+			}
 		case 1: // splice: head of the document followed by the tail of itself at another offset
 			if len(doc.Bytes) > 1 {
 				a, b := c.N(len(doc.Bytes)), c.N(len(doc.Bytes))
